@@ -36,6 +36,9 @@ RULE = (
     "reference at the completed input (tolerance t>0: at the input or at an earlier requested input within t), the uncached "
     "twin is compared with the reference, the body's run log is compared with 'at most once per distinct completed input' "
     "for full caches, caller arrays are compared before/after each call and a reopened HDF5 cache is compared entry by entry. "
+    "A pickle/deepcopy round trip of the cache (SimpleCache, HDF5Cache) may be inserted anywhere: tolerance, entries and last entry "
+    "must be unchanged. A fifth drive uses a discipline with a size-agnostic body whose input changes its size between calls "
+    "(scalar, constant vectors of the same value, other vectors; non-trivial: a scalar and a constant vector of the same value). "
     "A fourth drive takes an MDOChain of two cached harness disciplines (member caches Simple/MemoryFull with drawn tolerances) as "
     "the subject: executions, analytic or finite-difference linearisations at grid points, assignments of chain.cache.tolerance "
     "(including the value it already has), chain.set_cache and mode switches, against a fully uncached twin chain and the numpy "
@@ -97,7 +100,8 @@ F3 = "stale_jacobian_of_cache_hit_at_linearize_execute_false"
 # --------------------------------------------------------------------------- generators
 def _op(n_reopen=1):
     return st.fixed_dictionaries({
-        "op": st.sampled_from(["exec"] * 9 + ["lin"] * 7 + ["diff"] * 2 + ["setdef", "clear", "setcache", "setcache", "linx", "linx"] + ["reopen"] * n_reopen),
+        "op": st.sampled_from(["exec"] * 9 + ["lin"] * 7 + ["diff"] * 2 + ["setdef", "clear", "setcache", "setcache", "linx", "linx", "pickle", "pickle"] + ["reopen"] * n_reopen),
+        "how": st.sampled_from(["pickle", "deepcopy"]),  # for the pickling round trip of the cache
         "new_cache": st.sampled_from(["same", "same", "simple", "memory", "memory_shared", "hdf5"]),  # for setcache
         "new_tol": st.sampled_from([0, 0, 1, 2]),
         "again": st.sampled_from([False, False, False, True, True]),
@@ -364,6 +368,8 @@ def plan(p):
             steps.append({"kind": "setcache", "cache": op.get("new_cache", "same"), "tol": 0 if approximated(cfg) else op.get("new_tol", 0)})
         elif kind == "reopen":
             steps.append({"kind": "reopen", "forget": op["forget"]})
+        elif kind == "pickle":
+            steps.append({"kind": "pickle", "how": op.get("how", "pickle")})
     return steps, inplace
 
 
@@ -720,6 +726,38 @@ class Machine:
         self.has_outputs = False
         self.flags["set_cache_same_type" if same_type else "set_cache_other_type"] += 1
 
+    def pickle_cache(self, step):
+        """Pickling round trip of the cache (what pickling / deep-copying the discipline does to it): nothing changes.
+
+        MemoryFullCache cannot be pickled (finding C20-F1) and is left out.
+        """
+        if self.kind not in ("simple", "hdf5"):
+            return
+        import copy
+        import pickle
+
+        ctx = self.ctx
+        old = self.disc.cache
+        n_before = len(old)
+        before = snapshot_entries(old)
+        last_before = old.last_entry if n_before else None
+        last_before = None if last_before is None else ({k: np.array(dense(v)) for k, v in last_before.inputs.items()},
+                                                        {k: np.array(dense(v)) for k, v in last_before.outputs.items()})
+        new = pickle.loads(pickle.dumps(old)) if step["how"] == "pickle" else copy.deepcopy(old)
+        self.disc.cache = new
+        what = f"after a {step['how']} round trip of the {type(old).__name__}"
+        ctx.check(type(new) is type(old), "pickle", f"{what} the cache is a {type(new).__name__}")
+        ctx.check(float(new.tolerance) == self.tol, "pickle", f"{what} cache.tolerance is {new.tolerance}, it was {self.tol}")
+        ctx.check(len(new) == n_before, "pickle", f"{what} len(cache)={len(new)}, {n_before} before")
+        diff = entries_equal(before, snapshot_entries(new))
+        ctx.check(not diff, "pickle", f"{what} the entries differ: " + diff)
+        if last_before is not None:
+            last = new.last_entry
+            ok = (sorted(last.inputs) == sorted(last_before[0]) and all(same(dense(last.inputs[k]), last_before[0][k]) for k in last_before[0])
+                  and sorted(last.outputs) == sorted(last_before[1]) and all(same(dense(last.outputs[k]), last_before[1][k]) for k in last_before[1]))
+            ctx.check(ok, "pickle", f"{what} last_entry is {last!r}, it was inputs={last_before[0]!r} outputs={last_before[1]!r}")
+        self.flags["pickling_round_trip_nonempty" if n_before else "pickling_round_trip_empty"] += 1
+
     def reopen(self, step):
         if self.kind != "hdf5":
             return
@@ -812,6 +850,8 @@ def case_transparency(p, ctx):
                 m.setcache(step)
             elif kind == "reopen":
                 m.reopen(step)
+            elif kind == "pickle":
+                m.pickle_cache(step)
         m.sweep()
         # ---- classification
         f = m.flags
@@ -1076,11 +1116,145 @@ def case_chain(p, ctx):
     ctx.sample({"oracle": "chain", "case": p})
 
 
+# =========================================================================== inputs whose size changes between calls
+def vs_body(inp):
+    """Size-agnostic body: x is a 1-D array of any length, w has one component."""
+    x, w = inp["x"], inp["w"]
+    return {"y": np.array([float(np.sum(x * x)) + w[0]]), "n": np.array([float(x.size)])}
+
+
+def vs_jac(inp):
+    x = inp["x"]
+    return {"y": {"x": 2.0 * x.reshape(1, -1), "w": np.array([[1.0]])}, "n": {"x": np.zeros((1, x.size)), "w": np.zeros((1, 1))}}
+
+
+_VS_CLASS = []
+
+
+def varsize_class():
+    if _VS_CLASS:
+        return _VS_CLASS[0]
+    from gemseo.core.discipline.discipline import Discipline
+
+    class VarSize(Discipline):
+        def __init__(self, log):
+            super().__init__("V")
+            self.log = log
+            self.io.input_grammar.update_from_data({"x": np.zeros(1), "w": np.zeros(1)})  # arrays of numbers, no size constraint
+            self.io.output_grammar.update_from_data({"y": np.zeros(1), "n": np.zeros(1)})
+            self.io.input_grammar.defaults = {"w": np.array([0.5])}
+
+        def _run(self, input_data):
+            inp = {"x": input_data["x"], "w": input_data["w"]}
+            self.log.append(key_of(inp))
+            return vs_body(inp)
+
+        def _compute_jacobian(self, input_names=(), output_names=()):
+            self.jac = vs_jac({"x": self.io.data["x"], "w": self.io.data["w"]})
+
+    _VS_CLASS.append(VarSize)
+    return VarSize
+
+
+def varsize_histories():
+    op = st.fixed_dictionaries({
+        "op": st.sampled_from(["exec", "exec", "exec", "lin"]),
+        "v": st.integers(0, 2),           # index of the value pool: constant vectors of that value / vectors starting with it
+        "size": st.integers(1, 3),
+        "const": st.sampled_from([True, True, False]),
+        "pert": st.sampled_from([0, 0, 0, 1, 2]),
+        "w": st.booleans(),
+    })
+    return st.fixed_dictionaries({
+        "cache": st.sampled_from(["simple", "simple", "memory", "memory_shared", "hdf5"]),
+        "tol": st.sampled_from([0, 1, 2, 2]),
+        "values": st.lists(st.integers(-6, 6), min_size=3, max_size=3),
+        "ops": st.lists(op, min_size=3, max_size=12),
+    })
+
+
+def case_varsize(p, ctx):
+    """A discipline whose input x changes its size between calls (scalar, then a constant vector of that value, ...)."""
+    cls = varsize_class()
+    kind, tol = p["cache"], TOLS[p["tol"]]
+    delta = tol / 8.0 if tol else 2.0**-20
+    case_dir = tempfile.mkdtemp(dir=os.environ.get("VERIF_SCRATCH"))
+    try:
+        log, twin_log = [], []
+        disc, twin = cls(log), cls(twin_log)
+        twin.set_cache(twin.CacheType.NONE)
+        if kind == "simple":
+            disc.set_cache(disc.CacheType.SIMPLE, tolerance=tol)
+        elif kind == "hdf5":
+            disc.set_cache(disc.CacheType.HDF5, tolerance=tol, hdf_file_path=os.path.join(case_dir, "cache.h5"), hdf_node_path="n")
+        else:
+            disc.set_cache(disc.CacheType.MEMORY_FULL, tolerance=tol, is_memory_shared=kind == "memory_shared")
+        seen = {}  # class (size, grid values) -> list of completed inputs
+        sizes_of_value = {}
+        flags = Counter()
+        for op in p["ops"]:
+            v = p["values"][op["v"]] * GRID + 0.0
+            vals = [v] * op["size"] if op["const"] else [v + GRID * i for i in range(op["size"])]
+            vals[0] = vals[0] + op["pert"] * delta
+            x = {"x": np.array(vals), "w": np.array([1.25]) if op["w"] else np.array([0.5])}
+            args = {"x": x["x"].copy()}
+            if op["w"]:
+                args["w"] = x["w"].copy()
+            cls_key = (op["size"], tuple(np.round(x["x"] / GRID).tolist()), op["w"])
+            cands = [x] + ([c for c in seen.get(cls_key, []) if key_of(c) != key_of(x)] if tol > 0 else [])
+            ref, ref_jac = vs_body(x), vs_jac(x)
+            n_log = len(log)
+            if op["op"] == "exec":
+                got = {k: np.array(val) for k, val in disc.execute(args).items()}
+                tgot = {k: np.array(val) for k, val in twin.execute({k: a.copy() for k, a in args.items()}).items()}
+                for n in ("y", "n"):
+                    ctx.check(n in tgot and same(tgot[n], ref[n]), "varsize_uncached_twin", f"uncached twin returned {n}={tgot.get(n)!r}, body gives {ref[n]!r}")
+                ok = any(all(n in got and same(got[n], vs_body(c)[n]) for n in ("y", "n")) for c in cands)
+                ctx.check(ok, "varsize_outputs",
+                          f"returned y={got.get('y')!r}, n={got.get('n')!r} for x={x['x'].tolist()}, w={x['w'].tolist()}; the body gives y={ref['y'].tolist()}, n={ref['n'].tolist()} "
+                          f"({kind}, tolerance {tol}; earlier sizes of this value: {sorted(sizes_of_value.get(op['v'], []))})")
+            else:
+                res = disc.linearize(args, compute_all_jacobians=True)
+                tres = twin.linearize({k: a.copy() for k, a in args.items()}, compute_all_jacobians=True)
+                blocks = [(o, i) for o in ("y", "n") for i in ("x", "w")]
+                for o, i in blocks:
+                    ctx.check(o in tres and i in tres[o] and same(dense(tres[o][i]), ref_jac[o][i]), "varsize_uncached_twin", f"uncached twin returned a wrong d{o}/d{i}")
+                    ctx.check(o in res and i in res[o], "varsize_jacobian", f"linearize returned no block d{o}/d{i}")
+                ok = any(all(same(dense(res[o][i]), vs_jac(c)[o][i]) for o, i in blocks) for c in cands)
+                ctx.check(ok, "varsize_jacobian",
+                          f"linearize returned dy/dx={dense(res['y']['x']).tolist()} for x={x['x'].tolist()}; exact {ref_jac['y']['x'].tolist()} ({kind}, tolerance {tol})")
+                flags["linearize"] += 1
+            if kind in FULL:
+                counts = Counter(log)
+                ctx.check(not counts or max(counts.values()) <= 1, "varsize_run_once", f"the body ran twice for one input under a full cache ({kind}, tolerance {tol})")
+            other_sizes = sizes_of_value.get(op["v"], set()) - {op["size"]}
+            if op["const"] and op["pert"] == 0 and other_sizes:
+                flags["constant_vector_after_another_size_of_the_same_value"] += 1
+                if 1 in other_sizes or op["size"] == 1:
+                    flags["scalar_and_constant_vector_of_the_same_value"] += 1
+            if op["const"] and op["pert"] == 0:
+                sizes_of_value.setdefault(op["v"], set()).add(op["size"])
+            if cls_key in seen and len(log) == n_log:
+                flags["repeat_served_without_run"] += 1
+            seen.setdefault(cls_key, []).append(x)
+        ctx.cls("varsize:cache=" + kind, f"varsize:tolerance={tol:g}")
+        for name in sorted(flags):
+            ctx.cls("varsize:history_with_" + name)
+        if flags["scalar_and_constant_vector_of_the_same_value"]:
+            ctx.nontriv(("varsize", p))
+            ctx.cls("varsize:nontrivial")
+        ctx.sample({"oracle": "varsize", "case": p})
+    finally:
+        forget_singletons(case_dir)
+        shutil.rmtree(case_dir, ignore_errors=True)
+
+
 ORACLES = {
     "transparency_light": case_transparency,
     "transparency_memory": case_transparency,
     "transparency_hdf5": case_transparency,
     "chain": case_chain,
+    "varsize": case_varsize,
 }
 
 
@@ -1089,3 +1263,4 @@ def run(ctx):
     ctx.drive("transparency_memory", histories(["memory_shared", "memory"]), case_transparency, quick=180, thorough=3000)
     ctx.drive("transparency_hdf5", histories(["hdf5"], n_reopen=4), case_transparency, quick=160, thorough=2500)
     ctx.drive("chain", chain_histories(), case_chain, quick=150, thorough=2000)
+    ctx.drive("varsize", varsize_histories(), case_varsize, quick=120, thorough=2000)
